@@ -38,16 +38,16 @@ def poke (dst : Bytes) (off : Nat) (data : Bytes) : Bytes := dst.take off ++ dat
 /-- supla_esp_recv_callback, "the form left the password empty: keep the stored one", for a stored long password: the
     overflow part behind the old e-mail's terminator is copied behind the new e-mail's terminator (cut to what fits; if
     there is no room for a terminated e-mail at all the password is cut to its field).  `L`, `E`: sizes of the Password
-    and Email fields.  Returns the new Password and Email fields (a byte the C writes past the Email field when the part
-    is cut lands in the padding behind it and is not part of either field). -/
+    and Email fields.  Returns the new Password and Email fields. -/
 def keepLongPassword (L E : Nat) (oldPwd oldMail newMail : Bytes) : Bytes × Bytes :=
   if strnlen oldPwd L = L then
     if strnlen oldMail E < E ∧ strnlen newMail E < E then
       let src := oldMail.drop (strnlen oldMail E + 1)
       let part := strnlen src (E - strnlen oldMail E - 1)
-      if part < E - strnlen oldMail E - 1 then
-        let part' := if part ≥ E - strnlen newMail E - 1 then E - strnlen newMail E - 1 else part
-        (oldPwd, (poke newMail (strnlen newMail E + 1) (src.take (part' + 1))).take E)
+      if part < E - strnlen oldMail E - 1 ∧ strnlen newMail E < E - 1 then
+        -- the part and its terminator have to fit behind the new e-mail
+        let part' := if part > E - strnlen newMail E - 2 then E - strnlen newMail E - 2 else part
+        (oldPwd, (poke newMail (strnlen newMail E + 1) (src.take part' ++ [0])).take E)
       else (oldPwd, newMail)
     else (oldPwd.take (L - 1) ++ [0], newMail)
   else (oldPwd, newMail)
